@@ -348,7 +348,7 @@ impl C23 {
         }
         // a query prepared (built, node made) *before* another query times out, asked afterwards
         for _ in 0..reps { for f in [0usize, 2, 7, 14] { slow.push((1000 + f, Driver::Solve(2))); slow.push((1000 + f, Driver::SolveAll)); } }
-        C23 { depth, seed, n_fast: if tier == Tier::Quick { 12_000 } else { 150_000 }, slow, kb: load_kb(depth) }
+        C23 { depth, seed, n_fast: if tier == Tier::Quick { 30_000 } else { 300_000 }, slow, kb: load_kb(depth) }
     }
 }
 
